@@ -647,3 +647,218 @@ def r01_8(prog, rep, rid="R01.8"):
                              "is ignored)" % (v, N, C, bin(C).count("1"), N - 1))
     if n < 1:
         rep.broken_("rule=%s expected >=1 wrap-around mask in the fillers, found %d" % (rid, n))
+
+
+# ---------------------------------------------------------------------------
+# R01.9 cursor variables that are advanced together stay together
+
+def r01_9(prog, rep, rid="R01.9"):
+    """The sub-daily and daily fillers keep a running weekday (and day-of-year) next to the day of the month: the step expression of
+    the main loop advances them by the same amount (`d += n, w += n[, yd += n]`), so that `w` is always the weekday of (y, m, d) without
+    asking the calendar again.  A write to one member of such a set anywhere else in the loop must come with the same write to the
+    others (a skip-ahead of `d` alone leaves every later BYDAY test on the wrong weekday)."""
+    n = 0
+    for f in fillers(prog):
+        cfg = f.cfg
+        loops = cfg.natural_loops()
+        mains = sorted((h for h in loops if _is_main_loop(f, h)), key=lambda h: -len(loops[h]))
+        if not mains:
+            continue
+        h = mains[0]
+        L = main_loop_stmt(f, h)
+        if L is None or not L.get("inc"):
+            continue
+        # co-advanced sets: variables of the step expression that receive the same increment
+        by_inc = {}
+        for b in loops[h]:
+            for e in cfg.blocks[b].elems:
+                if not (isinstance(e["x"], dict) and _in_range(e, L["inc"])):
+                    continue
+                for l, kind, nn in writes(e["x"]):
+                    if kind == "compound" and nn.get("op") == "+=" and strip_casts(l).get("k") == "ref":
+                        by_inc.setdefault(show(strip_casts(cfg.resolve(nn["r"]))), set()).add(lv(l))
+        sets = [vs for vs in by_inc.values() if len(vs) >= 2]
+        if not sets:
+            continue
+        group = set().union(*sets)
+        n += 1
+        bad = []
+        for b in sorted(loops[h]):
+            wr = {}
+            for e in cfg.blocks[b].elems:
+                if not isinstance(e["x"], dict) or _in_range(e, L["inc"]):
+                    continue
+                for l, kind, nn in writes(e["x"]):
+                    if kind != "decl" and lv(l) in group:
+                        wr.setdefault(lv(l), e.get("line"))
+            if wr and set(wr) != group:
+                # a lone write is fine only if it cannot change the value's relation to the others: none of that kind exists today
+                bad.append((sorted(wr), sorted(group - set(wr)), min(v for v in wr.values() if v) if any(wr.values()) else None))
+        key = "%s/co-advanced(%s)" % (f.name, ",".join(sorted(group)))
+        if bad:
+            w_, miss, line = bad[0]
+            rep.fail(rid, key, f.loc(line), "%s %s advanced in the loop body without %s, although the step expression always moves them together: "
+                     "the running %s no longer belongs to the date, every later weekday / day-of-year test is off" % (
+                         ", ".join(w_), "is" if len(w_) == 1 else "are", ", ".join(miss), "/".join(miss)))
+        else:
+            rep.ok(rid, key, f.loc(), "%s are written only together (in the step expression)" % ", ".join(sorted(group)))
+    if n < 3:
+        rep.broken_("rule=%s expected >=3 fillers with co-advanced cursor variables, found %d" % (rid, n))
+
+
+# ---------------------------------------------------------------------------
+# R09.4b local arrays unrolled from a container hold every value the parser admits into it
+
+def r09_4b(prog, rep, rid="R09.4"):
+    """The yearly and monthly fillers unroll rr->dom / rr->mon into local arrays (`int d[2 * 31]`, `unsigned int m[12]`) with loops that are
+    bounded by the number of wanted results, not by the array: the array must be as large as the number of distinct values the parser
+    can have put into the container (62 = -31..31 without the 0 that the parser refuses; a parser that lets the 0 through makes it 63)."""
+    from ..rules import bitint
+    from ..flow import MustFacts, cond_atoms
+    sf = prog.fn("snarf_rrule", "evical.c")
+    mf = MustFacts(sf.cfg)
+    admitted = {}
+    for b, i, c, line in sf.all_calls():
+        if c.get("fn") in ("ass_bui31", "ass_bui63", "ass_bi31", "ass_bi63"):
+            tgt = lv(strip_casts(sf.cfg.resolve(c["a"][0]))).split(".")[-1].split("->")[-1]
+            val = lv(strip_casts(sf.cfg.resolve(c["a"][1])))
+            lo, hi, nz = bitint.arg_interval(sf, mf, b, i, val)
+            if c["fn"].startswith("ass_bui") and lo is None:
+                lo = 0
+            if lo is None or hi is None:
+                continue
+            cnt = hi - lo + 1 - (1 if (nz and lo <= 0 <= hi) else 0)
+            admitted[tgt] = max(admitted.get(tgt, 0), cnt)
+    n = 0
+    for f in fillers(prog):
+        cfg = f.cfg
+        arrays = {l_["n"]: l_.get("extent") for l_ in f.locals if l_.get("extent")}
+        for h, blks in cfg.natural_loops().items():
+            c = cfg.cond(h)
+            if c is None:
+                continue
+            src = None
+            for b in blks:      # a condition `k < n && (v = X_next(&it, rr->F), it)` is spread over several blocks
+                for e in cfg.blocks[b].elems:
+                    for nn in walk(e["x"]) if isinstance(e["x"], dict) else []:
+                        if nn.get("k") == "call" and (nn.get("fn") or "").endswith("_next") and len(nn["a"]) > 1:
+                            src = lv(strip_casts(f.expand(cfg.resolve(nn["a"][1])))).lstrip("&").split("->")[-1].split(".")[-1]
+            if src is None:
+                continue
+            for b in blks:
+                for e in cfg.blocks[b].elems:
+                    if not isinstance(e["x"], dict):
+                        continue
+                    for l, kind, nn in writes(e["x"]):
+                        l_ = strip_casts(l)
+                        if l_.get("k") == "idx" and lv(l_["b"]) in arrays:
+                            arr = lv(l_["b"])
+                            iv, off, post = index_var(l_["i"])
+                            guarded = any(len(a) == 5 and a[0] == "<" and a[1] == iv and (lambda v: v is not None and v <= arrays[arr])(int_value(a[4]))
+                                          for a in cond_atoms(c, True))
+                            if src not in admitted:
+                                continue
+                            n += 1
+                            key = "%s/%s[] holds BY-list %s" % (f.name, arr, src)
+                            if guarded or admitted[src] <= arrays[arr]:
+                                rep.ok(rid, key, f.loc(e.get("line")), "%s[%d] holds the %d distinct values the parser admits into rr->%s" % (arr, arrays[arr], admitted[src], src))
+                            else:
+                                rep.fail(rid, key, f.loc(e.get("line")), "%s[%d] is filled from rr->%s without a bound on the index, and the parser admits %d distinct "
+                                         "values into that container: a full list writes past the array" % (arr, arrays[arr], src, admitted[src]))
+    if n < 2:
+        rep.broken_("rule=%s expected >=2 unrolled BY-list arrays in the fillers, found %d" % (rid, n))
+
+
+# ---------------------------------------------------------------------------
+# R09.9 the all-weekdays default ignores the flag bit
+
+def r09_9(prog, rep, rid="R09.9"):
+    """Bit 0 of the fillers' weekday mask only says that BYDAY held *counted* weekdays (1MO, -1FR); bits 1..7 are the plain weekdays.  The
+    subtractive fillers allow every weekday when no plain weekday was given: the test that guards `mask |= all weekdays` must look at
+    bits 1..7 only, as its siblings do — a mask that carries only the flag and does not get the default rejects every day, and these
+    loops have no fuel."""
+    from ..flow import cond_atoms
+    n = 0
+    for f in fillers(prog):
+        cfg = f.cfg
+        for b, i, x, line in cfg.all_elems():
+            if not isinstance(x, dict):
+                continue
+            for l, kind, nn in writes(x):
+                if nn.get("k") == "bin" and nn["op"] in ("|=", "=") and int_value(nn["r"]) == 0xfe and strip_casts(l).get("k") == "ref":
+                    v = lv(l)
+                    ctl = None
+                    for p_ in cfg.lpreds.get(b, []):
+                        c = cfg.cond(p_)
+                        if c is not None:
+                            ctl = c
+                    if ctl is None:
+                        continue
+                    n += 1
+                    key = "%s/all-weekdays-default(%s)" % (f.name, v)
+                    masked = any(q.get("k") == "bin" and ((q["op"] == ">>" and int_value(q["r"]) == 1) or (q["op"] == "&" and int_value(q["r"]) in (0xfe, 0xfffffffe)))
+                                 and lv(strip_casts(q["l"])) == v for q in walk(ctl))
+                    if masked:
+                        rep.ok(rid, key, f.loc(nn.get("line", line)), "the default is applied when bits 1..7 of %s are clear, whatever the flag bit says" % v)
+                    else:
+                        rep.fail(rid, key, f.loc(nn.get("line", line)), "the all-weekdays default is guarded by `%s`, which also looks at bit 0 (the `counted weekdays` flag): "
+                                 "a BYDAY of counted weekdays only leaves the mask without any weekday, every day is rejected and the filler never returns" % show(ctl)[:50])
+    if n < 3:
+        rep.broken_("rule=%s expected >=3 all-weekdays defaults in the fillers, found %d" % (rid, n))
+
+
+# ---------------------------------------------------------------------------
+# R09.10 the congruence check speaks about the month the skipping loop starts from
+
+def r09_10(prog, rep, rid="R09.10"):
+    """rrul_fill_mly() first checks that some BYMONTH month is congruent to the start month modulo INTERVAL and then walks `m += inter`
+    until it hits one — a loop without fuel whose termination rests on that check.  No write to the month variable may lie between the
+    check and the walk (the SHIFT pre-roll moves it)."""
+    from ..q import forward_scan
+    n = 0
+    for f in fillers(prog):
+        cfg = f.cfg
+        loops = cfg.natural_loops()
+        checks, walks = [], []
+        for h, blks in loops.items():
+            c = cfg.cond(h)
+            if c is None:
+                continue
+            mods = [q for b in blks for cc in [cfg.cond(b)] if cc is not None for q in walk(cc)
+                    if q.get("k") == "bin" and q["op"] == "%" and any(
+                        r_.get("k") == "mem" and r_.get("f") == "inter" for r_ in walk(f.expand(q["r"])))]     # modulo the step, or something made from it
+            if mods:
+                mv = {r_["n"] for q in mods for r_ in walk(q["l"]) if r_.get("k") == "ref" and r_.get("dk") == "local"}
+                checks.append((h, blks, mv))
+            steps = set()
+            for b in blks:
+                for e in cfg.blocks[b].elems:
+                    if isinstance(e["x"], dict):
+                        for l, kind, nn in writes(e["x"]):
+                            if kind == "compound" and nn.get("op") == "+=" and lv(strip_casts(cfg.resolve(nn["r"]))).endswith("->inter"):
+                                steps.add(lv(l))
+            if steps and any(q.get("k") == "call" and (q.get("fn") or "").endswith("has_bit_p") for q in walk(c)) and not _is_main_loop(f, h):
+                walks.append((h, blks, steps))
+        for ch, cblks, mv in checks:
+            for wh, wblks, steps in walks:
+                var = mv & steps
+                if not var or wh == ch or wh not in cfg.reach_from(ch):
+                    continue
+                n += 1
+                v = sorted(var)[0]
+                # writes to v on a path from the check loop's exit to the walk's header
+                exits = [s_ for b in cblks for s_ in cfg.blocks[b].live_succs() if s_ not in cblks]
+                bad = []
+                for ex in exits:
+                    hits, _ = forward_scan(cfg, (ex, -1), lambda b_, i_, x_: ("stop" if b_ == wh else ("hit" if isinstance(x_, dict) and any(
+                        lv(l) == v and k != "decl" for l, k, n_ in writes(x_)) else None)), include_start=False)
+                    bad += [h_ for h_ in hits if wh in cfg.reach_from(h_[0])]
+                key = "%s/congruence-check-then-walk(%s)" % (f.name, v)
+                if bad:
+                    rep.fail(rid, key, f.loc(cfg.blocks[bad[0][0]].elems[bad[0][1]].get("line")), "%s is modified between the congruence check (%s %% INTERVAL against "
+                             "BYMONTH) and the fuel-less walk `%s += inter` that relies on it: from the moved month no BYMONTH month may be reachable and "
+                             "the walk never ends" % (v, v, v))
+                else:
+                    rep.ok(rid, key, f.loc(), "the walk starts from the month the congruence check looked at")
+    if n < 1:
+        rep.broken_("rule=%s expected the congruence check and month walk of the monthly filler, found %d" % (rid, n))
